@@ -41,7 +41,7 @@ def make_instantiations(tier):
     out = []
     for arch, wl, n in fam:
         ename, tensors, outs, rvs = M.WORKLOADS[wl]
-        sks = [sk for sk in M.gen_skeletons(arch, wl, 6 * n, seed() + 3) if len(M.loops_of(sk)) <= (4 if tier == "quick" else 5)][:n]
+        sks = [sk for sk in M.gen_skeletons(arch, wl, 6 * n, seed() + 3, nomain_prob=0.3) if len(M.loops_of(sk)) <= (4 if tier == "quick" else 5)][:n]
         for si, sk in enumerate(sks):
             opts = {}
             if si % 3 == 2:
